@@ -41,6 +41,14 @@ var quickStates = []stateSpec{
 	{k: kind{multi: true, vt: true}, nprep: 1, ahead: 0, ntx: 0, poolMode: 0},
 	{k: kind{multi: false, sr: true, vt: true}, nprep: 1, ahead: 3, ntx: 4, poolMode: 2},
 	{k: kind{multi: true, sr: true, vt: true, skip: true}, nprep: 1, ahead: 2, ntx: 3, poolMode: 1},
+	// a pooled transaction loses its validity by the tip block (control + tx-list candidates only)
+	{k: kind{multi: false, vt: true}, nprep: 1, ntx: 2, stale: 1},
+	{k: kind{multi: true, vt: true}, nprep: 1, ntx: 2, stale: 2},
+	{k: kind{multi: false, sr: true, vt: true}, nprep: 1, ntx: 1, stale: 3},
+	{k: kind{multi: true, vt: true}, nprep: 1, ntx: 2, poolMode: 1, stale: 4},
+	{k: kind{multi: false, vt: true}, nprep: 1, ntx: 2, stale: 5},
+	{k: kind{multi: true, sr: true, vt: true}, nprep: 2, ntx: 2, stale: 6},
+	{k: kind{multi: false, vt: true}, nprep: 1, ntx: 2, poolMode: 1, stale: 7},
 }
 
 func randomSpec(r *prng.R) stateSpec {
@@ -51,6 +59,9 @@ func randomSpec(r *prng.R) stateSpec {
 	s.poolMode = r.Intn(3)
 	if s.k.sr && s.ahead >= 2 && r.Chance(1, 6) {
 		s.badNextPsr = true
+	}
+	if r.Chance(1, 4) {
+		s.stale = 1 + r.Intn(len(staleNames)-1)
 	}
 	return s
 }
@@ -97,6 +108,27 @@ func classify(err error) string {
 		return "err:witness"
 	}
 	return "err:other(" + strings.ReplaceAll(m, " ", "_") + ")"
+}
+
+// classifyTxErr names the reason VerifyTx refuses a transaction.
+func classifyTxErr(err error) string {
+	switch {
+	case errors.Is(err, core.ErrTxSmallNetworkFee):
+		return "small-network-fee"
+	case errors.Is(err, core.ErrPolicy):
+		return "policy"
+	case errors.Is(err, core.ErrInsufficientFunds), errors.Is(err, core.ErrMemPoolConflict):
+		return "insufficient-funds"
+	case errors.Is(err, core.ErrTxExpired):
+		return "expired"
+	case errors.Is(err, core.ErrHasConflicts):
+		return "has-conflicts"
+	case errors.Is(err, core.ErrAlreadyExists):
+		return "already-exists"
+	case errors.Is(err, core.ErrInvalidAttribute):
+		return "invalid-attribute"
+	}
+	return "other"
 }
 
 // ---- the independently computed description of a candidate ---------------------------------------
@@ -337,6 +369,9 @@ func main() {
 			if ci >= len(cs) {
 				break
 			}
+			if st.spec.stale > 0 && cs[ci].group != "control" && cs[ci].group != "txlist" {
+				continue // stale-pool states: the header/witness/encoding sweeps add nothing new
+			}
 			runCase(o, k, st, &cs[ci], r)
 		}
 		if si >= len(quickStates) {
@@ -359,6 +394,11 @@ var corpus = []struct {
 	{7, "tx-witness-bitflip-first"}, // VerifyTransactions off: accepted tx stayed in the mempool (a280843)
 	{12, "dup-last"},                // storeBlock fails after AddMPTBatch (next header's PrevStateRoot): trie damaged
 	{12, "add-valid-tx"},
+	// a pooled transaction that lost its validity by the tip block and is carried by the next block
+	{13, "add-stale-pooled+resigned"}, // FeePerByte raised a little: the mempool's fee-per-byte test keeps it (known)
+	{14, "add-stale-pooled+resigned"}, // FeePerByte raised a lot: must have been evicted (seeded loadPolicy mutation)
+	{15, "add-stale-pooled+resigned"}, // attribute fee raised (known)
+	{16, "add-stale-pooled+resigned"}, // sender blocked by Policy.blockAccount (known)
 }
 
 // safeBuild turns a refusal of the valid chain itself (prefix, valid next block, valid headers, a
@@ -497,7 +537,7 @@ func runCase(o *hx.Out, k int, st *state, cd *cand, r *prng.R) {
 	}
 	o.Line(fmt.Sprintf("node bh=%d root=%s", st.h, short(st.roots[st.h])), "ok")
 	var bl []string
-	for _, n := range []string{"A", "B", "C", "D", "poor", "outsider"} {
+	for _, n := range []string{"A", "B", "C", "D", "poor", "outsider", "stale"} {
 		bl = append(bl, fmt.Sprintf("%s=%d", n, st.bal[n]))
 	}
 	o.Line("bal "+strings.Join(bl, " "), "ok")
@@ -602,6 +642,10 @@ func runCase(o *hx.Out, k int, st *state, cd *cand, r *prng.R) {
 							key := "accepted-invalid:tx"
 							if pooled[t.h] {
 								key = "pooled-tx-witness-not-checked"
+								if st.stale != nil && t.h == st.stale.Hash() && t.wid == witID(&st.stale.Scripts[0]) {
+									// the very object that is pooled: it lost its validity while pooled and was not evicted
+									key = "stale-pooled-tx-accepted:" + staleNames[spec.stale]
+								}
 							}
 							fail(key, "accepted with transaction %s that is not individually valid (%s)", t.id, t.why)
 						}
